@@ -3,4 +3,5 @@ let table = [
   (1, FamEnv.run_fam_env);
   (2, FamRM.run_fam_rm);
   (3, FamMaint.run_fam_maint);
+  (4, FamSched.run_fam_sched);
 ]
